@@ -4,6 +4,7 @@ import re
 from . import build
 from .core import RuleResult, DISCHARGED, VIOLATED, UNMODELLED
 from .guards import as_comparison
+from .ir import _single_def
 from .rules_state import fkey
 
 FACTORIES = {"dsplib::create_fft_plan": "BaseFftPlanC", "dsplib::create_rfft_plan": "BaseFftPlanR"}
@@ -103,7 +104,8 @@ def rule_K1(prog, fixture=False):
             continue
         ops = []
         for n in f.walk():
-            if n.is_call() and n.callee and n.callee.get("cls", "").startswith("dsplib::LRUCache<") and _short(n.callee.get("qn")) in CACHE_METHODS:
+            if n.is_call() and n.callee and n.callee.get("cls", "").startswith("dsplib::LRUCache<") and n.k == "CXXMemberCallExpr" \
+                    and (_short(n.callee.get("qn")) in CACHE_METHODS or (n.call_args() and _short(n.callee.get("qn")) not in ("size", "clear", "empty"))):
                 ops.append((n, _short(n.callee.get("qn"))))
         if ops:
             users.append((f, ops))
@@ -499,21 +501,36 @@ def rule_K3(prog, fixture=False):
         else:
             res.add(key, VIOLATED, where, "%s in %s" % (s["name"], s.get("func")),
                     "capacity argument (%s) does not fold to a constant" % s.get("init_text"))
-    # eviction test in put
-    puts = [f for f in prog.functions.values() if f.cls and f.cls.startswith("dsplib::LRUCache<") and f.qn.endswith("::put")]
-    if not puts:
-        res.broken.append("anchor vanished: LRUCache::put not instantiated")
-    for f in sorted(puts, key=lambda f: f.cls):
-        key = "K3:evict:%s" % f.cls
-        where = "%s:%d" % (prog.rel(f.file), f.line)
+    # eviction test in put, and in every other member that inserts
+    members = [f for f in prog.functions.values() if f.cls and f.cls.startswith("dsplib::LRUCache<") and f.kind == "method"
+               and not f.get("implicit")]
+    puts = []
+    for f in members:
         cj = prog.classes.get(f.cls)
         list_f = [x["name"] for x in cj["fields"] if "list<" in x["ctype"]][:1] if cj else []
         map_f = [x["name"] for x in cj["fields"] if "unordered_map<" in x["ctype"] or x["ctype"].startswith("std::map<")][:1] if cj else []
+        if f.qn.endswith("::put"):
+            puts.append((f, list_f, map_f))
+        elif list_f and map_f and any(d > 0 for (_, _, d) in _container_effects(f, list_f[0], map_f[0])):
+            puts.append((f, list_f, map_f))
+    if not any(f.qn.endswith("::put") for (f, _, _) in puts):
+        res.broken.append("anchor vanished: LRUCache::put not instantiated")
+    for (f, list_f, map_f) in sorted(puts, key=lambda t: (t[0].cls, t[0].line)):
+        key = "K3:evict:%s" % f.cls if f.qn.endswith("::put") else "K3:evict:%s" % fkey(f)
+        where = "%s:%d" % (prog.rel(f.file), f.line)
         ok = None
+        stale = None
         for n in f.walk():
             if n.k != "IfStmt":
                 continue
             c = n.role("cond")
+            flag = None
+            if c is not None:
+                cs = c.strip_all()
+                if cs.k == "DeclRefExpr" and cs.decl and cs.decl.get("k") == "local" and cs.tc == "bool":
+                    d = _single_def(cs)
+                    if d is not None:
+                        flag, c = cs, d
             cmp_ = as_comparison(c) if c is not None else None
             if cmp_ is None:
                 continue
@@ -533,17 +550,32 @@ def rule_K3(prog, fixture=False):
             then = n.role("then")
             eff = _container_effects(f, list_f[0], map_f[0]) if list_f and map_f else []
             inside = [(x, cont, d) for (x, cont, d) in eff if then is not None and any(a.id == then.id for a in x.ancestors())]
-            if any(d < 0 and cont == "list" for (_, cont, d) in inside) and any(d < 0 and cont == "map" for (_, cont, d) in inside):
-                ok = n
-            elif then is not None and list_f and map_f:
+            evicts = any(d < 0 and cont == "list" for (_, cont, d) in inside) and any(d < 0 and cont == "map" for (_, cont, d) in inside)
+            if not evicts and then is not None and list_f and map_f:
                 for x in then.walk():
                     if x.k == "CXXMemberCallExpr" and x.callee and x.callee.get("cls") == f.cls:
                         h = prog.functions.get(x.callee["usr"])
                         if h is not None and _removes_pair(prog, h, list_f[0], map_f[0], set()):
-                            ok = n
+                            evicts = True
+            if not evicts:
+                continue
+            if flag is not None:
+                f.blocks
+                w = f.stale_flag(flag, n.role("cond"))
+                if w is not None:
+                    stale = (n, flag, w)
+                    continue
+            ok = n
         if ok is not None:
+            c = ok.role("cond")
             res.add(key, DISCHARGED, "%s:%d" % (prog.rel(f.file), ok.line), "%s eviction" % f.short,
-                    "evicts a list/map pair when %s" % ok.role("cond").text(), func=f.name)
+                    "evicts a list/map pair when %s" % c.text(), func=f.name)
+        elif stale is not None:
+            n, flag, w = stale
+            res.add(key, VIOLATED, "%s:%d" % (prog.rel(f.file), n.line), "%s eviction" % f.short,
+                    "the eviction is decided by '%s', computed from the container size before a point where the cache can change "
+                    "(a write to the containers or a call to a caller-supplied callable that may re-enter the cache): entries "
+                    "inserted in between are not counted and the cache outgrows max_size_" % flag.text(), func=f.name)
         else:
             res.add(key, VIOLATED, where, "%s eviction" % f.short,
                     "no test of the container size against max_size_ whose taken branch removes an entry from both structures: "
